@@ -22,7 +22,7 @@ MANIFEST = dict(
           "windows-1252 and html.unescape tables; lossless_*_needs_safe are the decided counterexamples = the two known findings); "
           "<meta charset>/<meta http-equiv=content-type content> get placeholders at parse time and render with the target's name, '' / "
           "removed for PYTHON_SPECIFIC_ENCODINGS, untouched for eventual_encoding=None (meta_rewritten_charset, meta_untouched(_charset), "
-          "meta_content_placeholder, meta_rewritten_content_partial and meta_rewritten_content_verbatim for ANY target name (digits, "
+          "meta_content_placeholder, meta_both_styles, setUp_old_agrees, meta_rewritten_content_partial and meta_rewritten_content_verbatim for ANY target name (digits, "
           "backslashes, \\g<1>…: the rewrite is literal), content_rewritten_spellings and charset_re_tolerant over the generated "
           "shape of the live CHARSET_RE, xml_declaration, python_specific_table); a declared-charset finder returns the target name on the "
           "bytes of an ASCII-compatible codec (redetect_charset_partial, redetect_content_partial). Tie: differential runs of the real code "
@@ -37,7 +37,9 @@ MANIFEST = dict(
     note=("Codecs are parameters with hypotheses, grounded by testing each real codec's laws on the characters of the case: (codec, "
           "character) pairs where CPython's codec is not round-trip lawful (shift_jis/euc-jp U+00A5 U+203E, cp932 U+00A2.., euc-kr U+3164, "
           "iso-2022-kr SO/SI, …) are dropped from the case and counted (excluded:unlawful-pair). Known findings re-observed from "
-          "behaviour each run: C1 controls via &#128;–&#159;, noncharacters in attribute values. Text inside script/style and comments is "
+          "behaviour each run: C1 controls via &#128;–&#159;, noncharacters in attribute values. A <meta> with both declaration styles "
+          "must have both rewritten (repaired set_up_substitutions: `if … if …`; setUpSubstitutionsOld + meta_both_styles_old_stale "
+          "keep the 4.13.0 behaviour as a witness). Text inside script/style and comments is "
           "written raw, so an unencodable character there becomes a literal &#N; that no reader undoes: outside the quantifier "
           "(\"text/attributes\"), exercised for 'succeeds and decodes' only and counted. prettify: values compared modulo strip(). "
           "The reader model covers only the writer's image (C09 owns the reader); the finder of `redetect_*` is a simplification of "
@@ -132,7 +134,6 @@ def pick_encoding(r):
 BOM_WRITERS = {"utf-16": "utf-16", "utf-32": "utf-32"}
 KF_C1 = "C08-c1-controls-via-charref"
 KF_NONCHAR = "C08-noncharacters-in-attributes"
-KF_BOTH = "C08-meta-both-styles-one-rewritten"
 ASCII_SPACES = " \n\t\x0c\r"
 
 
@@ -697,10 +698,13 @@ def stream_setup(ctx, batch):
         # the property statement
         want = {k: "p" for k in attrs}
         if name == "meta":
+            # each declaration style on its own: a tag may carry both, and then both must be rewritable
             if "charset" in attrs:
                 want["charset"] = "c"
-            elif "content" in attrs and attrs.get("http-equiv", "").lower() == "content-type":
+            if "content" in attrs and attrs.get("http-equiv", "").lower() == "content-type":
                 want["content"] = "m"
+            if want.get("charset") == "c" and want.get("content") == "m":
+                ctx.count("setup:both-styles-in-one-meta")
         case = {"op": "setup", "markup": markup}
         real = " ".join(f"{tok(k)}:{kinds[k]}" for k in tag.attrs) or "-"
         line = f"setup {tok(name)} {len(tag.attrs)} " + " ".join(f"{tok(k)} {tok(str(v))}" for k, v in tag.attrs.items())
@@ -839,7 +843,7 @@ def check_doc(ctx, batch, recipe, enc, entry, stream):
     if style != "none" and entry != "encode_contents_body":
         m2 = again.find("meta")
         plain = bool(PLAIN_NAME.match(enc))   # a name a reader's regex can take back verbatim (no white space, `/ ; ' " < > &`)
-        both = KF_BOTH if info.get("both") else None
+        both = bool(info.get("both"))
         ctx.count("doc:name:" + ("digit-leading" if enc[:1].isdigit() else "metachar" if re.search(r"[^A-Za-z0-9_\- ]", enc) else
                                  "canonical" if enc in ENCODINGS else "alias"))
         if style == "charset" or plain:
@@ -848,7 +852,7 @@ def check_doc(ctx, batch, recipe, enc, entry, stream):
                 viol("the <meta> declaration in the output does not name the target encoding (as given)", expected=enc, observed=got)
         if both and plain and m2 is not None and declared_in(m2, "content") != enc:
             viol("a <meta> carrying both declaration styles: the one in `content` still names the old encoding",
-                 expected=enc, observed=declared_in(m2, "content"), kf=both)
+                 expected=enc, observed=declared_in(m2, "content"))
         if style == "content" and m2 is not None and m2.get("content") != content_expected(info["parts"], enc, False):
             viol("the content attribute is not the original with only the charset value replaced",
                  expected=content_expected(info["parts"], enc, False), observed=m2.get("content"))
@@ -863,7 +867,7 @@ def check_doc(ctx, batch, recipe, enc, entry, stream):
             want = expected_bom_codec(out, enc)
             if oen != want:
                 viol("re-parsing the output auto-detects a different encoding (compared through codecs.lookup)", expected=want,
-                     observed=oe, kf=both)
+                     observed=oe)
             ctx.count("doc:redetect:" + ("bom" if f.norm in ("utf-16", "utf-32") else "declared"))
     elif style == "none" and f.norm in ("utf-16", "utf-32") and entry != "encode_contents_body":
         oe = BS(out, "html.parser").original_encoding
@@ -924,6 +928,14 @@ def check_doc_str(ctx, batch, recipe, e_enc, stream):
                     "decode(eventual_encoding=e) did not rewrite the declaration (empty / removed for a Python-specific e)")
             found.append(what)
             report(ctx, what, case=case, expected=want, observed=got, stream=stream)
+    if style == "charset" and info.get("both") and m2 is not None:
+        got = m2.get("content")
+        want = ("text/html; charset=" + info["orig"] if e_enc is None else
+                "text/html" if e_enc in PROP_PYTHON_SPECIFIC else "text/html; charset=" + e_enc)
+        if got != want:
+            what = "a <meta> carrying both declaration styles: decode() did not treat the one in `content` like the charset attribute"
+            found.append(what)
+            report(ctx, what, case=case, expected=want, observed=got, stream=stream)
     ctx.count("doc-str:" + ("none" if e_enc is None else "python-specific" if e_enc in PROP_PYTHON_SPECIFIC else "named") + ":" + style)
     ctx.case(("doc-str", json.dumps(recipe, sort_keys=True), e_enc) if style != "none" else None)
     if batch is not None:
@@ -957,6 +969,7 @@ def stream_docs(ctx, batch):
 # --------------------------------------------------------------------------------------
 NAME_METAS = [
     dict(markup='<meta charset="utf8">', style="charset", orig="utf8"),
+    dict(markup='<meta charset="utf8" content="text/html; charset=utf8" http-equiv="Content-Type">', style="charset", orig="utf8", both=True),
     dict(markup='<meta charset="\\g<1>">', style="charset", orig="\\g<1>"),
     dict(markup='<meta http-equiv="Content-Type" content="text/html; charset=utf8">', style="content", orig="text/html; charset=utf8",
          parts=dict(mime="text/html", sep=";", before="", w0=" ", key="charset", w1="", w2="", old="utf8", after="")),
@@ -986,7 +999,7 @@ def stream_names(ctx, batch):
                 check_subst(ctx, batch, meta["orig"], enc, content_expected(meta["parts"], enc, False), "names-subst")
         ctx.count("names:" + ("digit-leading" if enc[:1].isdigit() else "other"))
     ctx.exhaustive_parts.append(f"target-name spellings: {len(names['all'])} accepted spellings (digit-leading labels, case, separators, regex/format "
-                                "metacharacters) + the canonical list x 4 <meta> declarations x 4 entry points + decode(eventual_encoding)")
+                                "metacharacters) + the canonical list x 5 <meta> declarations x 4 entry points + decode(eventual_encoding)")
     batch.flush()
 
 
